@@ -396,6 +396,25 @@ Definition extract_dx_dy (s : string) : res (num * num) :=
   do dy <- strp_r (match b with Some x => x | None => "0" end);
   Ok (dx, dy).
 
+(* the arithmetic of a position attribute: coordinate of the location plus the offset *)
+Definition pos_value (attr_ss : scalarspec) (bb : bbox) (loc : locspec) (dx dy : num) : num :=
+  let '(x, y) := bb_locspec N bb loc in
+  match attr_ss with
+  | Minx | Maxx | Cx => x +. dx
+  | Miny | Maxy | Cy => y +. dy
+  | _ => bb_scalarspec N bb attr_ss end.
+(* the arithmetic of directional placement: top-left corner of the placed element *)
+Definition dir_place (rel : dirspec) (bb : bbox) (tw th gap : num) : num * num :=
+  let '(x, y) := bb_locspec N bb (LNamed (dir_to_locname rel)) in
+  let '(dx, dy) :=
+    match rel with
+    | Above => (nneg N tw /. two, nneg N (th +. gap))
+    | Below => (nneg N tw /. two, gap)
+    | InFront => (gap, nneg N th /. two)
+    | Behind => (nneg N (tw +. gap), nneg N th /. two)
+    end in
+  (x +. dx, y +. dy).
+
 Definition pos_attr_helper (e : el) (remain : string) (bb : bbox) (attr_ss : scalarspec) : res string :=
   let '(loc_str, dxy) := split_once_space remain in
   match strip_prefix "~" loc_str with
@@ -413,12 +432,8 @@ Definition pos_attr_helper (e : el) (remain : string) (bb : bbox) (attr_ss : sca
       do loc <- (match strip_prefix "@" loc_str with
                  | Some ls => parse_locspec N strp ls
                  | None => if nonempty loc_str then Err EParse else Ok loc0 end);
-      let '(x, y) := bb_locspec N bb loc in
       do '(dx, dy) <- extract_dx_dy dxy;
-      Ok (fstr (match attr_ss with
-                | Minx | Maxx | Cx => x +. dx
-                | Miny | Maxy | Cy => y +. dy
-                | _ => bb_scalarspec N bb attr_ss end))
+      Ok (fstr (pos_value attr_ss bb loc dx dy))
   end.
 
 Definition eval_pos_attr (c : emap) (e : el) (name value : string) : res string :=
@@ -485,15 +500,8 @@ Definition eval_rel_position (c : emap) (e : el) : res el :=
                   do gap <- (if nonempty rest
                              then strp_r (match attr_split rest with x :: _ => x | [] => "0" end)
                              else Ok zero);
-                  let '(x, y) := bb_locspec N bb (LNamed (dir_to_locname rel)) in
-                  let '(dx, dy) :=
-                    match rel with
-                    | Above => (nneg N tw /. two, nneg N (th +. gap))
-                    | Below => (nneg N tw /. two, gap)
-                    | InFront => (gap, nneg N th /. two)
-                    | Behind => (nneg N (tw +. gap), nneg N th /. two)
-                    end in
-                  place_at c (epop e "xy") (x +. dx) (y +. dy)
+                  let '(px, py) := dir_place rel bb tw th gap in
+                  place_at c (epop e "xy") px py
               end
           | _, _ => Ok e
           end
